@@ -542,11 +542,13 @@ def instances(tier, seed):
         "overlaps", "overlap_intervals", "intersection_len", "left_of", "contains", "covers_end", "covers_start",
         "equal_ranges", "contains_well_inside", "contains_approx", "max_range", "interval_len", "overlaps_at_least",
         "overlaps_at_least_when_overlap")], "two free intervals, free delta>=0, free point")]
+    # the step-halving search probes an inner index before its right neighbour only from 4 intervals on
+    for n in ((1, 2, 3, 4, 5) if q else (1, 2, 3, 4, 5, 6, 7, 8, 9)):
+        out.append(Instance("binsearch[%d]" % n, h_binsearch(n, False), [C + "interval_bin_search"], "list of %d" % n))
+        out.append(Instance("binsearch_rev[%d]" % n, h_binsearch(n, True), [C + "interval_bin_search_rev"], "list of %d" % n))
     for n in ((1, 2, 3) if q else (1, 2, 3, 4, 5, 6)):
         out.append(Instance("sums[%d]" % n, h_sums(n), [C + "intervals_total_length", C + "sum_intervals_to_point",
                                                      C + "sum_intervals_from_point"], "list of %d intervals, free point" % n))
-        out.append(Instance("binsearch[%d]" % n, h_binsearch(n, False), [C + "interval_bin_search"], "list of %d" % n))
-        out.append(Instance("binsearch_rev[%d]" % n, h_binsearch(n, True), [C + "interval_bin_search_rev"], "list of %d" % n))
         out.append(Instance("extra_exon[%d]" % n, h_extra_exon(n), [C + "extra_exon_percentage"], "list of %d + region" % n))
         out.append(Instance("junctions[%d]" % n, h_junctions(n), [C + f for f in (
             "junctions_from_blocks", "get_exons", "get_exon", "get_following_exon_from_junctions",
